@@ -31,21 +31,22 @@ pub fn allowed(prog: &Program) -> BTreeMap<String, Vec<Val>> {
 
 fn scratch_root(p: &str) -> Option<PathBuf> {
     // <fs_root>.<pid>/c<N>/...
-    let path = Path::new(p);
-    let mut comps = path.components();
-    let mut root = PathBuf::new();
-    for _ in 0..4 {
-        root.push(comps.next()?.as_os_str());
-    }
-    Some(root)
+    let wr = world::worker_root();
+    let rest = Path::new(p).strip_prefix(&wr).ok()?;
+    let case = rest.components().next()?;
+    Some(wr.join(case.as_os_str()))
 }
+
+/// Number of key-named files whose content the state invariant has validated (evidence that it is not vacuous).
+pub static INVARIANT_FILE_CHECKS: std::sync::atomic::AtomicU64 = std::sync::atomic::AtomicU64::new(0);
 
 /// State invariant, evaluated right after every event that creates, replaces or writes
 /// something: every key-named file in a cache (or shard) directory holds a complete value
 /// written for that key.
 pub fn invariant(w: Arc<BTreeMap<String, Vec<Val>>>) -> Invariant {
     Box::new(move |e: &Ev| {
-        if !e.ok() || !matches!(e.kind, Kind::Rename | Kind::Link | Kind::Write | Kind::CopyRange | Kind::Truncate) {
+        let creating_open = e.kind == Kind::Open && (e.flags as i32 & (libc::O_CREAT | libc::O_TRUNC)) != 0;
+        if !e.ok() || !(matches!(e.kind, Kind::Rename | Kind::Link | Kind::Write | Kind::CopyRange | Kind::Truncate) || creating_open) {
             return None;
         }
         let p = e.path2.as_ref().or(e.path.as_ref())?;
@@ -76,6 +77,7 @@ pub fn invariant(w: Arc<BTreeMap<String, Vec<Val>>>) -> Invariant {
                         Ok(c) => c,
                         Err(_) => continue, // vanished meanwhile: fine
                     };
+                    INVARIANT_FILE_CHECKS.fetch_add(1, std::sync::atomic::Ordering::Relaxed);
                     let ok = match (world::identify(&content), w.get(&n)) {
                         (Some(v), Some(vals)) => vals.contains(&v),
                         _ => false,
@@ -249,6 +251,84 @@ pub fn programs(tier: Tier) -> Vec<(Program, Mode)> {
     v
 }
 
+/// The content invariant under single I/O faults: whatever call of a write fails, at no moment may a
+/// key-named file be visible that does not hold a complete value (a fallback that creates the entry
+/// in place and then fills it is visible to any reader, or survives a crash, half-written).
+fn fault_section(shard: Shard, rep: &mut Report) {
+    use crate::props::c02::fault_free;
+    use crate::props::c18::{plausible, FailAt};
+    use crate::props::scn;
+    use crate::shim::{Action, Controller};
+    use std::sync::atomic::AtomicU64;
+    use std::sync::Mutex;
+    struct Both {
+        faults: FailAt,
+        inv: Invariant,
+        hits: Mutex<Vec<String>>,
+    }
+    impl Controller for Both {
+        fn before(&self, ev: &Ev) -> Action {
+            self.faults.before(ev)
+        }
+        fn after(&self, ev: &Ev) {
+            if let Some(m) = (self.inv)(ev) {
+                self.hits.lock().unwrap().push(m);
+            }
+        }
+    }
+    let mut w: BTreeMap<String, Vec<Val>> = BTreeMap::new();
+    for name in ["key", "key2", "e0", "e1", "e2", "e3", "maint", "maint2"] {
+        w.insert(name.to_string(), scn::allowed_values(name));
+    }
+    let w = Arc::new(w);
+    let mut no = 0u64;
+    for scn in scn::all_scenarios() {
+        if scn.debris() || matches!(scn.op.as_str(), "get" | "touch" | "accept") {
+            continue;
+        }
+        let (n, trace, _res) = fault_free(&scn);
+        for k in 0..n {
+            for a in plausible(&trace[k], false) {
+                no += 1;
+                if !shard.mine(no) {
+                    continue;
+                }
+                let world = scn::setup(&scn);
+                let cache = world.cache();
+                let force = world.force_maintenance;
+                let ctl = Arc::new(Both {
+                    faults: FailAt { faults: vec![(k as u64, a)], kinds: vec![Some(trace[k].kind)], n: AtomicU64::new(0), hit: Mutex::new(vec![]) },
+                    inv: invariant(w.clone()),
+                    hits: Mutex::new(vec![]),
+                });
+                crate::shim::set_controller(Some(ctl.clone() as Arc<dyn Controller>));
+                let (_r, t) = crate::run::as_participant(0, 0, || {
+                    if force {
+                        crate::run::trigger_fire_next(u64::MAX);
+                    } else {
+                        crate::run::trigger_never();
+                    }
+                    crate::ops::exec(&cache, &world.dirs, &world.op, &Default::default())
+                });
+                crate::shim::set_controller(None);
+                rep.evaluations += 1;
+                rep.states += 1;
+                rep.traces += 1;
+                rep.transitions += t.len() as u64;
+                rep.count("content_invariant_under_fault_cases", 1);
+                let hits = ctl.hits.lock().unwrap().clone();
+                if let Some(m) = hits.first() {
+                    rep.violation(
+                        "content:published-corrupt-under-fault",
+                        format!("{} with call {} ({}) failing {:?}: {}", scn.to_json(), k, trace[k].func, a, m),
+                        serde_json::json!({"fault_section": true}),
+                    );
+                }
+            }
+        }
+    }
+}
+
 pub fn run(tier: Tier, shard: Shard, rep: &mut Report) {
     rep.rule = "curated programs of 2-3 participants x 1-2 operations from {set, put, set_temp_file, ensure, get_or_update->Replace, \
         get+read-to-end, touch} over two keys with writer-distinct values (1 B, 5 B and 3 x 8 KiB written by three write calls), \
@@ -257,7 +337,9 @@ pub fn run(tier: Tier, shard: Shard, rep: &mut Report) {
         filesystem-call granularity with <= 2 preemptions (thorough: more programs, bound 3 and unbounded sleep-set search for the \
         classic pairs). Oracle: bytes read from every returned handle are exactly one value written for that key; after every rename, \
         link, write, copy or truncate event every key-named file visible in a cache directory holds a complete value for its name; \
-        same at the end. Non-trivial = execution with >= 1 preemption."
+        same at the end. The same state invariant is also evaluated after every call of every write scenario of the C02 table with \
+        each single I/O fault injected (a torn publication on an error path is visible without any second participant). \
+        Non-trivial = execution with >= 1 preemption."
         .into();
     rep.assumptions = vec![
         "threads with own handles stand in for processes; sequentially consistent interleaving of whole system calls".into(),
@@ -270,9 +352,16 @@ pub fn run(tier: Tier, shard: Shard, rep: &mut Report) {
     let mk = move |pi: usize| RunOpts { invariant: Some(invariant(ws2[pi].clone())), ..Default::default() };
     let mut chk = |pi: usize, x: &Execution| check(x, &ws[pi]);
     e1::explore_all("C01", &progs, shard, rep, &mk, &mut chk, cap);
+    crate::run::reset_env();
+    fault_section(shard, rep);
+    rep.count("invariant_file_checks", INVARIANT_FILE_CHECKS.load(std::sync::atomic::Ordering::Relaxed));
 }
 
 pub fn replay(case: &Value, rep: &mut Report) {
+    if case.get("fault_section").is_some() {
+        fault_section(Shard { index: 0, count: 1 }, rep);
+        return;
+    }
     crate::sched::install_hooks();
     let progs: Vec<Program> = programs(Tier::Thorough).into_iter().map(|p| p.0).collect();
     let name = case["program"].as_str().unwrap_or("");
